@@ -144,6 +144,11 @@ func StringToNumber(s string) (n int64, f float64, tp NumberType) {
 		tp = NaN
 		return
 	}
+	// strconv accepts Go syntax, where underscores may separate digits
+	if strings.IndexByte(s, '_') >= 0 {
+		tp = NaN
+		return
+	}
 	var i0 = 0
 	// If the string starts with -?0[xX] then it may be an hex number
 	if s[0] == '+' {
